@@ -15,7 +15,7 @@ ASSUMPTIONS = ["Fisher/Liptak/user combiners are evaluated in doubles: rows whos
                "although their p-vectors differ may be ordered either way; the implementation's count must lie in the bracket "
                "[ge - ambiguous, ge] (bracketed comparisons are counted in the evidence)",
                "Liptak (normal quantiles) has no exact model: checked for range, never-zero and against a double-precision oracle only"]
-COMBS = ["fisher", "tippett", "liptak", "callable", "callable-dot", "callable-sum0", "callable-logsum0"]
+COMBS = ["fisher", "tippett", "liptak", "callable", "callable-dot", "callable-sum0", "callable-logsum0", "callable-truncated", "callable-count"]
 
 
 def user_combiner(kind, n, rng):
@@ -26,6 +26,12 @@ def user_combiner(kind, n, rng):
         w = [rng.choice([0.5, 1.0, 2.0, 0.25]) for _ in range(n)]
         wa = np.array(w)
         return (lambda p: -np.dot(wa, p)), "negwsum:" + " ".join(str(Fr(v)) for v in w)
+    if kind == "callable-truncated":      # weakly decreasing, flat above the truncation point (truncated-product style)
+        tau = rng.choice([0.5, 0.25, 0.75])
+        return (lambda p, tau=tau: -np.sum(np.minimum(p, tau))), "negminsum:" + str(Fr(tau))
+    if kind == "callable-count":          # a step function: how many partial tests are significant at tau
+        tau = rng.choice([0.5, 0.25, 0.75])
+        return (lambda p, tau=tau: float(np.sum(np.asarray(p) <= tau))), "countbelow:" + str(Fr(tau))
     if kind == "callable-sum0":
         return (lambda p: -p.sum(0)), "negsum"
     if kind == "callable-logsum0":
@@ -160,7 +166,7 @@ def run(ctx):
         D = tv + [ts]; B = len(D)
         plus1 = ctx.rng.random() < 0.5
         c = 1 if plus1 else 0
-        comb = ctx.rng.choice(["fisher", "tippett", "callable", "callable-dot", "callable-sum0", "callable-logsum0"])
+        comb = ctx.rng.choice(["fisher", "tippett", "callable", "callable-dot", "callable-sum0", "callable-logsum0", "callable-truncated", "callable-count"])
         cfun, name = user_combiner(comb, n, ctx.rng)
         if ctx.rng.random() < 0.6:
             pv = [Fr(ctx.rng.randint(1, B + c), B + c) for _ in range(n)]      # on the grid: ties with rows
